@@ -11,7 +11,15 @@ const OPTS: BatOpts = BatOpts { vbe_memory_model: true, elf_names: false };
 
 fn variants(kind: u32) -> Vec<Vec<u8>> {
     match kind {
-        bi::FRAMEBUFFER => vec![bi::sample(kind, 1, 0), bi::sample(kind, 2, 1), bi::sample(kind, 3, 2)],
+        bi::FRAMEBUFFER => {
+            let mut v = vec![bi::sample(kind, 1, 0), bi::sample(kind, 2, 1), bi::sample(kind, 3, 2)];
+            // the pixel formats real firmware reports (a dictionary of realistic field combinations: quirk
+            // handling in a parser is keyed on exactly these)
+            for (bpp, info) in [(32u8, [16u8, 8, 8, 8, 0, 8]), (24, [16, 8, 8, 8, 0, 8]), (32, [0, 8, 8, 8, 16, 8]), (16, [11, 5, 5, 6, 0, 5]), (16, [10, 5, 5, 5, 0, 5]), (15, [10, 5, 5, 5, 0, 5]), (30, [20, 10, 10, 10, 0, 10])] {
+                v.push(bi::enc_framebuffer(0xFD00_0000, 4096, 1024, 768, bpp, 1, &info));
+            }
+            v
+        }
         bi::CMDLINE | bi::BOOTLOADER | bi::MODULE | bi::SMBIOS | bi::NETWORK => vec![bi::sample(kind, 1, 5), bi::sample(kind, 2, 0)],
         bi::MMAP | bi::EFI_MMAP => vec![bi::sample(kind, 1, 2), bi::sample(kind, 2, 0)],
         bi::ELF => {
